@@ -43,6 +43,7 @@ MANIFEST = {
 def run(rep, tier):
     _run(rep, tier)
     rule_i386_dispatch(rep)
+    rule_x86_rounds(rep, tier)
 
 
 def _run(rep, tier):
@@ -372,3 +373,128 @@ def rule_i386_dispatch(rep):
                           "bit-interleaved halves %#x / %#x" % (r, [hex(x) for x in imms], rc, ev, od))
         else:
             rep.instance(rid, 1)
+
+
+# ---------------------------------------------------------------------------
+def rule_x86_rounds(rep, tier):
+    """D5: the x86-64 ascon_permute computes the specification's rounds.
+
+    (a) prologue: the five state words are loaded from 0,8,..,32(%rdi) into
+        five registers (one of them complemented); (b) every round block,
+        entered with those registers holding prologue(X) and every other
+        register unknown, leaves prologue(round_r(X)) in them - a polynomial
+        identity over GF(2) in the 320 state bits, exact for all states;
+        (c) the epilogue stores the registers back so that epilogue(prologue(X))
+        = X and restores the callee-saved registers and the stack pointer;
+        (d) first_round >= 12 goes straight to the epilogue.  With the jump
+        table of D4 (entry r -> block r, blocks laid out in order and falling
+        through) this gives ascon_permute(first_round) = rounds first_round..11."""
+    from . import asm_anf
+    from .affine import Unsupported, const_bits
+    from .rules_c08 import spec_round
+    rid = "C18.D5"
+    rep.rule(rid, "x86-64 ascon_permute: every round block is the specification's round (polynomial identity), prologue/epilogue are inverse")
+    b = repo.configure(repo.Config("asm"))
+    target = None
+    for u in asm_x86.asm_units(b):
+        af = asm_x86.AsmFile(repo.preprocess(u), u.file)
+        if "ascon_permute" in af.funcs:
+            target = (u, af)
+    if target is None:
+        rep.broken.append("%s: ascon_permute not found in the x86-64 assembly units" % rid)
+        return
+    u, af = target
+    fn = af.funcs["ascon_permute"]
+    tabs = [t for t in af.tables.values() if len(t) == 12]
+    if len(tabs) != 1:
+        rep.unproved_item(rid, "no unique 12-entry jump table (see C18.D4)")
+        return
+    table = tabs[0]
+    order = sorted(fn.labels, key=lambda l: fn.labels[l])
+    after = [l for l in order if fn.labels[l] > fn.labels[table[11]]]
+    if not after:
+        rep.unproved_item(rid, "no label after the last round block")
+        return
+    end_label = after[0]
+    cmp_idx = next((i.idx for i in fn.insns if i.op == "cmpq"), None)
+    if cmp_idx is None:
+        rep.unproved_item(rid, "no comparison of first_round in the prologue")
+        return
+    X = [asm_anf.sym_word("x%d" % k) for k in range(5)]
+    saved = {r: asm_anf.sym_word("saved_" + r) for r in ("rbx", "rbp", "r12", "r13", "r14", "r15")}
+
+    def prologue(words, first_round=0):
+        mc = asm_anf.Machine(fn)
+        mc.regs = dict(saved)
+        mc.regs.update({"rdi": asm_anf.PtrVal("state", 0), "rsp": asm_anf.PtrVal("stack", 0), "rsi": const_bits(first_round, 64)})
+        mc.written = set(mc.regs)
+        for k in range(5):
+            mc.mem[("state", 8 * k)] = tuple(words[k])
+        mc.run(0, stop_idx=cmp_idx)
+        return mc
+    try:
+        p0 = prologue(X)
+        atoms_x = set(("x%d" % k, j) for k in range(5) for j in range(64))
+
+        def depends_on_state(v):
+            return not isinstance(v, asm_anf.PtrVal) and any(a in atoms_x for bit in v for mono in bit for a in mono)
+        state_regs = sorted(r for r, v in p0.regs.items() if depends_on_state(v))
+        if len(state_regs) != 5:
+            rep.unproved_item(rid, "the prologue leaves the state in %d registers" % len(state_regs))
+            return
+        rep.instance(rid, 1, {"prologue_registers": state_regs})
+        # (c) epilogue
+        ep = asm_anf.Machine(fn)
+        ep.regs = {r: p0.regs[r] for r in state_regs + ["rdi", "rsp"]}
+        ep.written = set(ep.regs)
+        ep.mem = {k: v for k, v in p0.mem.items() if k[0] == "stack"}
+        got = ep.run(fn.labels[end_label])
+        okc = got == "ret" and all(ep.mem.get(("state", 8 * k)) == tuple(X[k]) for k in range(5)) and \
+            ep.regs.get("rsp") == asm_anf.PtrVal("stack", 0) and \
+            all(ep.regs.get(r) == saved[r] for r in saved if ("stack", 0) != 0 and any(v == saved[r] for v in p0.mem.values()))
+        if not okc:
+            bad = [k for k in range(5) if ep.mem.get(("state", 8 * k)) != tuple(X[k])]
+            rep.violation(rid, "ascon_permute:epilogue", "%s:%d" % (u.file, fn.insns[fn.labels[end_label]].line),
+                          "the epilogue of ascon_permute does not store back what the prologue loaded (state word(s) %s differ, or "
+                          "the stack pointer / a callee-saved register is not restored)" % bad, config=b.cfg.name)
+        else:
+            rep.instance(rid, 1, {"epilogue": "stores the five words back, restores %s" % sorted(
+                r for r in saved if any(v == saved[r] for v in p0.mem.values()))})
+        # (d) first_round >= 12
+        d = prologue(X, 12)
+        r = d.run(cmp_idx, stop_labels={end_label} | set(table))
+        if r != end_label:
+            rep.violation(rid, "ascon_permute:first-round-12", "%s:%d" % (u.file, fn.insns[cmp_idx].line),
+                          "first_round = 12 does not go straight to the epilogue (reaches %s)" % r, config=b.cfg.name)
+        else:
+            rep.instance(rid, 1)
+    except Unsupported as e:
+        rep.unproved_item(rid, "prologue / epilogue not interpretable: %s" % e)
+        return
+    # (b) the rounds
+    for r in range(12):
+        nxt = table[r + 1] if r < 11 else end_label
+        try:
+            mc = asm_anf.Machine(fn)
+            mc.regs = {x: p0.regs[x] for x in state_regs + ["rdi", "rsp"]}
+            mc.written = set(mc.regs)
+            mc.mem = {k: v for k, v in p0.mem.items() if k[0] == "stack"}
+            got = mc.run(fn.labels[table[r]], stop_labels={nxt})
+            if got != nxt:
+                rep.violation(rid, "ascon_permute:round%d:flow" % r, "%s:%d" % (u.file, fn.insns[fn.labels[table[r]]].line),
+                              "round block %d does not fall through to %s (reaches %s)" % (r, nxt, got), config=b.cfg.name)
+                continue
+            want = prologue(spec_round(X, r))
+            bad = [x for x in state_regs if mc.regs.get(x) != want.regs[x]]
+            stack_ok = all(mc.mem.get(k) == v for k, v in p0.mem.items() if k[0] == "stack") and mc.regs.get("rsp") == p0.regs["rsp"]
+            if bad or not stack_ok:
+                rep.violation(rid, "ascon_permute:round%d" % r, "%s:%d" % (u.file, fn.insns[fn.labels[table[r]]].line),
+                              "round block %d (label %s) of the x86-64 ascon_permute is not the specification's round %d: register(s) "
+                              "%s differ as polynomials in the state bits%s" % (
+                                  r, table[r], r, ", ".join("%" + x for x in bad), "" if stack_ok else "; saved registers on the stack are overwritten"),
+                              config=b.cfg.name)
+            else:
+                rep.instance(rid, 1, {"round": r, "label": table[r]})
+        except Unsupported as e:
+            rep.unproved_item(rid, "round %d: %s" % (r, e))
+    rep.floor_discharged(rid, 12)
